@@ -158,7 +158,8 @@ def cache_view(cache) -> Any:
     if cache is None:
         return None
     entries = []
-    for e in cache.get_all_entries():
+    # (an empty HDF5Cache cannot be iterated: keep_open() closes a file that was never opened)
+    for e in cache.get_all_entries() if len(cache) else ():
         entries.append((canon(dict(e.inputs)), canon(dict(e.outputs)), canon({k: dict(v) for k, v in (e.jacobian or {}).items()})))
     v: dict[str, Any] = {
         "class": type(cache).__name__,
